@@ -99,6 +99,31 @@ def concrete(f):
     return g
 
 
+def tlc_mc_split(ck, label, what, sched_sink, timeout=900, **kw):
+    """generator + liveness of one budgeted model as two concurrent TLC runs: the single-worker emission run
+    checks the invariants, a multi-worker run checks the temporal property (about half the wall time of one
+    single-worker run doing both)"""
+    import threading
+    box = {}
+
+    def live():
+        try:
+            box["live"] = tlc_mc(ck, label + "_live", timeout=timeout, workers=6, fair=True, **kw)
+        except Exception as e:  # re-raised in the caller's thread
+            box["err"] = e
+    t = threading.Thread(target=live)
+    t.start()
+    res = tlc_mc(ck, label, timeout=timeout, sched_sink=sched_sink, fair=False, **kw)
+    t.join()
+    if "err" in box:
+        raise box["err"]
+    vlib.tlc_ok(res, what + " (emission)")
+    vlib.tlc_ok(box["live"], what + " (liveness)")
+    ck.add_tlc(res, what + " - invariants + schedule emission")
+    ck.add_tlc(box["live"], what + " - liveness")
+    return res
+
+
 def schedules_from(path):
     """distinct fault histories printed by the generator, shortest first, deterministic order"""
     seen = {}
@@ -295,6 +320,8 @@ class Norm:
                     else:
                         out.append({"e": "recv", "i": i, "s": s, "ch": c, "kind": e["kind"],
                                     "len": e.get("len", 0), "h": e.get("h", 0) & 0x7FFFFFFF})
+                elif ev == "close_call":
+                    out.append({"e": "chan", "i": i, "s": s, "ch": self.ch(e["sid"]), "what": "closing", "cause": "app"})
                 elif ev == "newchan":
                     out.append({"e": "newchan", "i": i, "s": s, "ch": self.ch(e["sid"]), "ord": bool(e["ordered"]),
                                 "mr": e["max_retransmits"] if e["max_retransmits"] is not None else -1,
